@@ -352,7 +352,131 @@ def translate_statistics(src_dir: str) -> str:
     return head + body + "\nend Physt.Src\n"
 
 
-UNITS = {"statistics": (translate_statistics, "StatisticsSrc.lean")}
+# ---------------------------------------------------------------- config.py
+
+def _src(n):
+    return ast.unparse(n)
+
+
+def translate_config(src_dir: str) -> str:
+    """`_Config` as sequences of ContextVar primitives.  Each method must have exactly the shape transcribed here; anything else
+    is outside the subset (an error), because the refinement theorems speak about these shapes."""
+    tree = ast.parse(open(os.path.join(src_dir, "config.py")).read())
+    cls = next((n for n in tree.body if isinstance(n, ast.ClassDef) and n.name == "_Config"), None)
+    if cls is None:
+        raise Unsupported("class _Config not found")
+    meth = {n.name + (":setter" if any("setter" in _src(d) for d in n.decorator_list) else ""): n
+            for n in cls.body if isinstance(n, ast.FunctionDef)}
+
+    def body(n):
+        return [s for s in n.body if not (isinstance(s, ast.Expr) and isinstance(s.value, ast.Constant) and isinstance(s.value.value, str))]
+
+    def need(name):
+        if name not in meth:
+            raise Unsupported(f"method {name} not found")
+        return meth[name]
+
+    def var_call(e, method, arg=None):
+        """`getattr(self, name).<method>(<arg>)` or `var.<method>(<arg>)` where var = getattr(self, name)"""
+        if not (isinstance(e, ast.Call) and isinstance(e.func, ast.Attribute) and e.func.attr == method and not e.keywords):
+            return False
+        if [(_src(a)) for a in e.args] != ([arg] if arg else []):
+            return False
+        return _src(e.func.value) in ("getattr(self, name)", "var")
+
+    def prims(stmts, node):
+        """a straight-line statement list over the variable -> list of primitives"""
+        out = []
+        for s in stmts:
+            if isinstance(s, ast.Assign) and _src(s.targets[0]) == "var" and _src(s.value) == "getattr(self, name)":
+                continue
+            if isinstance(s, ast.Return) and s.value is not None and var_call(s.value, "get"):
+                out.append("VarPrim.get")
+            elif isinstance(s, (ast.Return, ast.Expr)) and s.value is not None and var_call(s.value, "set", "value"):
+                out.append("VarPrim.set")
+            elif isinstance(s, ast.Assign) and _src(s.targets[0]) == "token" and var_call(s.value, "set", "value"):
+                out.append("VarPrim.setKeepToken")
+            elif isinstance(s, ast.Expr) and var_call(s.value, "reset", "token"):
+                out.append("VarPrim.resetToken")
+            else:
+                fail(s, f"statement of {node.name} that is not a ContextVar primitive")
+        return out
+
+    def is_yield(s):
+        return isinstance(s, ast.Expr) and isinstance(s.value, ast.Yield) and s.value.value is None
+
+    out = []
+    # _make_var: a ContextVar per option
+    mv = body(need("_make_var"))
+    uses_cv = (len(mv) == 2 and _src(mv[0]) == "var = contextvars.ContextVar(name, default=default)" and _src(mv[1]) == "setattr(self, name, var)")
+    if not uses_cv:
+        fail(need("_make_var"), "_make_var does not create one contextvars.ContextVar per option")
+    # __init__: the option and its environment default
+    ini = body(need("__init__"))
+    if len(ini) != 1 or not isinstance(ini[0], ast.Expr) or not isinstance(ini[0].value, ast.Call) or _src(ini[0].value.func) != "self._make_var":
+        fail(need("__init__"), "__init__")
+    a = ini[0].value.args
+    if len(a) != 2 or not isinstance(a[0], ast.Constant):
+        fail(ini[0], "__init__ arguments")
+    d = a[1]
+    if not (isinstance(d, ast.Compare) and len(d.ops) == 1 and isinstance(d.ops[0], ast.Eq) and isinstance(d.left, ast.Call)
+            and _src(d.left.func) == "os.environ.get" and len(d.left.args) == 2 and all(isinstance(x, ast.Constant) for x in d.left.args)
+            and isinstance(d.comparators[0], ast.Constant)):
+        fail(d, "default of the option")
+    var_name = a[0].value
+    out.append("def Config.option : OptionDecl :=\n  { varName := %s, usesContextVar := true, envName := %s, envDefault := %s, envOn := %s }\n"
+               % tuple(json_str(x) for x in (var_name, d.left.args[0].value, d.left.args[1].value, d.comparators[0].value)))
+    out.append(f"/-- `_Config._get_value` -/\ndef Config.getValue : List VarPrim := [{', '.join(prims(body(need('_get_value')), need('_get_value')))}]\n")
+    out.append(f"/-- `_Config._set_value` -/\ndef Config.setValue : List VarPrim := [{', '.join(prims(body(need('_set_value')), need('_set_value')))}]\n")
+    # _change_value: generator-based context manager
+    cv = need("_change_value")
+    if [_src(x) for x in cv.decorator_list] != ["contextlib.contextmanager"] or [x.arg for x in cv.args.args] != ["self", "name", "value"]:
+        fail(cv, "_change_value is not a contextlib.contextmanager over (name, value)")
+    b = body(cv)
+    enter, exit_, in_finally = None, None, None
+    for i, s in enumerate(b):
+        if is_yield(s):
+            enter, exit_, in_finally = prims(b[:i], cv), prims(b[i + 1:], cv), False
+            break
+        if isinstance(s, ast.Try):
+            if s.handlers or s.orelse or len(s.body) != 1 or not is_yield(s.body[0]) or b[i + 1:]:
+                fail(s, "try statement of _change_value")
+            enter, exit_, in_finally = prims(b[:i], cv), prims(s.finalbody, cv), True
+            break
+    if enter is None:
+        fail(cv, "_change_value has no plain `yield`")
+    out.append("/-- `_Config._change_value` -/\ndef Config.changeValue : CtxMgr :=\n  { enter := [%s], exit := [%s], exitInFinally := %s }\n"
+               % (", ".join(enter), ", ".join(exit_), "true" if in_finally else "false"))
+    # the public property and the public context manager must only delegate, on this option
+    g, st, en = body(need("free_arithmetics")), body(need("free_arithmetics:setter")), need("enable_free_arithmetics")
+    if len(g) != 1 or _src(g[0]) != f"return self._get_value({var_name!r})":
+        fail(need("free_arithmetics"), "the property getter does not delegate to _get_value")
+    if len(st) != 1 or _src(st[0]) != f"self._set_value({var_name!r}, value)":
+        fail(need("free_arithmetics:setter"), "the property setter does not delegate to _set_value")
+    eb = body(en)
+    if [_src(x) for x in en.decorator_list] != ["contextlib.contextmanager"] or [x.arg for x in en.args.args] != ["self", "value"] \
+            or len(en.args.defaults) != 1 or not isinstance(en.args.defaults[0], ast.Constant) or not isinstance(en.args.defaults[0].value, bool) \
+            or len(eb) != 1 or not isinstance(eb[0], ast.With) or len(eb[0].items) != 1 \
+            or _src(eb[0].items[0].context_expr) != f"self._change_value({var_name!r}, value)" or eb[0].items[0].optional_vars is not None \
+            or len(eb[0].body) != 1 or not is_yield(eb[0].body[0]):
+        fail(en, "enable_free_arithmetics does not simply wrap _change_value")
+    out.append("/-- `enable_free_arithmetics(value=%s)` is `with self._change_value(option, value): yield` -/\ndef Config.enableDefault : Bool := %s\n"
+               % (en.args.defaults[0].value, "true" if en.args.defaults[0].value else "false"))
+    bodytxt = "\n".join(out)
+    digest = hashlib.sha256(bodytxt.encode()).hexdigest()[:16]
+    head = ("import Physt.Model.PyConfig\n/-! GENERATED by tools/py2lean.py from physt/config.py — do not edit; regenerated and compared on every run.\n"
+            "transcribed: _make_var, __init__, _get_value, _set_value, _change_value, free_arithmetics (getter, setter), enable_free_arithmetics; "
+            "not transcribed: __new__ (singleton bookkeeping)\n"
+            f"digest of the definitions: {digest} -/\nnamespace Physt.Src\nopen Physt\n\n")
+    return head + bodytxt + "\nend Physt.Src\n"
+
+
+def json_str(x):
+    import json
+    return json.dumps(str(x))
+
+
+UNITS = {"statistics": (translate_statistics, "StatisticsSrc.lean"), "config": (translate_config, "ConfigSrc.lean")}
 
 
 def source_dir(arg):
